@@ -682,6 +682,25 @@ func checkC22(p *Prog, r *Report) {
 		}
 		return false
 	}
+	// the walk is pruned for reasons that belong to the tree and the configuration only: no SkipDir is decided by a
+	// callback handed in from outside (an `is this directory excluded` predicate prunes whole sub-trees that a pattern
+	// such as //foo:all does not cover)
+	{
+		dyn := ""
+		for _, ret := range returnsOf(cb) {
+			if len(ret.Results) == 0 || !isSkipDir(ret.Results[0]) {
+				continue
+			}
+			for _, f := range factsAt(ret) {
+				if c, ok := f.V.(*ssa.Call); ok && c.Call.StaticCallee() == nil && !c.Call.IsInvoke() {
+					if _, isB := c.Call.Value.(*ssa.Builtin); !isB {
+						dyn = c.Call.Value.Name()
+					}
+				}
+			}
+		}
+		r.check(dyn == "", rule, "no SkipDir is decided by a caller-supplied predicate", p.pos(cb.Pos()), fnName(cb), "every SkipDir return is under tests on the name, the configuration or the prefix", "the BUILD-file walker prunes a directory when a caller-supplied predicate ("+dyn+") says so: an `excluded` test built from --exclude //foo:all is true for the directory foo itself, the walk never descends, and //foo/bar, //foo/bar/baz vanish from `//...` although the exclude does not cover them")
+	}
 	type prune struct {
 		name string
 		pred func(v ssa.Value) bool
